@@ -243,10 +243,37 @@ class Gen:
             o['segments'] = sg
         return (o,)
 
+    def staircase(self, base=None):
+        """The shape compact() output has for a region with a hole: walking down from a cell, at every level the
+        siblings of the path are kept -- 3 cells at each of d consecutive resolutions."""
+        r = self.rng
+        c = self.cell(base)
+        cr = res_of(c)
+        if not (2 <= cr <= 22):
+            c = self.cell_at(self.point(), r.randint(2, 12))
+            cr = res_of(c)
+        out = []
+        cur = c
+        for _ in range(r.randint(3, 6)):
+            ch = self.ctx.value(mk('cell_to_children', cur))
+            if not isinstance(ch, list) or len(ch) < 2:
+                break
+            ch = list(ch)
+            nxt = r.choice(ch)
+            out.extend(x for x in ch if x != nxt)
+            cur = nxt
+        if r.random() < 0.5:
+            out.append(cur)
+        if r.random() < 0.7:
+            r.shuffle(out)
+        return out or [c]
+
     def cell_list(self, base=None):
         """A list for compact/uncompact: descendants of a few cells, shuffled,
         duplicated, with holes, mixed resolutions."""
         r = self.rng
+        if r.random() < 0.2:
+            return self.staircase(base)
         out = []
         for _ in range(r.randint(1, 3)):
             c = self.cell(base)
